@@ -227,3 +227,84 @@ def builtin_family(base_id, k=4):
     p.bi = ASCII_BI
     progs.append(p)
     return progs
+
+
+def arm_family(seed, n, base_id, k=3):
+    """Definitions aimed at the transition structure of one automaton state: several rules share
+    an (optional) prefix and then diverge on *class atoms* that overlap in every way -- single
+    characters, ranges, sets with holes (`X # 'b'`), `_`, `_ # X`, `'b' | _` -- followed by short
+    suffixes, some of them equal so that different characters lead to the same target state and
+    others do not.  The state after the prefix then has character, range and `_` transitions at
+    once, with coinciding and differing targets; every input of length <= k over the letters, the
+    suffix characters and one outsider is replayed (seed S-F9: an arm dropped because its target
+    equals the `_` target while a merged range bridges over it)."""
+    g = Gen(seed)
+    rnd = g.rnd
+    L = [97, 98, 99, 100, 101]
+
+    def rng():
+        a = rnd.choice(L[:-1])
+        return (a, rnd.choice([x for x in L if x > a]))
+
+    def base_atom():
+        r = rnd.random()
+        if r < 0.25:
+            return chr_(rnd.choice(L))
+        if r < 0.5:
+            return set_([rng()])
+        if r < 0.65:
+            items = [rng(), (rnd.choice(L),) * 2]
+            rnd.shuffle(items)
+            return set_(list(dict.fromkeys(items)))
+        return any_()
+
+    def atom():
+        r = rnd.random()
+        if r < 0.3:
+            return base_atom()
+        if r < 0.65:
+            wide = rnd.choice([set_([(97, 101)]), any_(), set_([rng()])])
+            hole = rnd.choice([chr_(rnd.choice(L)), set_([rng()])])
+            return diff(wide, hole)
+        if r < 0.85:
+            return alt(chr_(rnd.choice(L)), rnd.choice([any_(), set_([rng()]), diff(any_(), chr_(rnd.choice(L)))]))
+        return diff(diff(any_(), chr_(rnd.choice(L))), chr_(rnd.choice(L)))
+
+    def suffix():
+        r = rnd.random()
+        if r < 0.2:
+            return None
+        if r < 0.5:
+            return chr_(62)
+        if r < 0.75:
+            return chr_(33)
+        if r < 0.85:
+            return plus(chr_(62))
+        return rnd.choice([str_([62, 33]), opt(chr_(33))])
+
+    out = []
+    tries = 0
+    while len(out) < n and tries < 200 * n:
+        tries += 1
+        prefix = rnd.choice([None, None, chr_(60), chr_(97)])
+        nr = rnd.choice([2, 2, 3, 3, 4])
+        rules = []
+        for _ in range(nr):
+            parts = [x for x in (prefix, atom()) if x is not None]
+            s = suffix()
+            if s is not None and not (s["k"] == "opt" and False):
+                parts.append(s)
+            if rnd.random() < 0.12:
+                parts[-1] = plus(parts[-1]) if parts[-1]["k"] not in ("plus", "opt", "str") else parts[-1]
+            re = cats(*parts)
+            rules.append(inf_rule(re) if rnd.random() < 0.8 else simple_rule(re))
+        if rnd.random() < 0.4:
+            rules.append(simple_rule(any_()))
+        sigma = sorted(set(L + [62, 33, 120] + ([60] if prefix is not None and prefix["c"] == 60 else [])))
+        p = Program(base_id + len(out), [("Init", rules)], sigma=sigma, k=k, named=rnd.random() < 0.5)
+        try:
+            if p.well_formed():
+                out.append(p)
+        except Exception:
+            continue
+    return out
